@@ -37,6 +37,8 @@ func runC01(c *Ctx) {
 	lockRules(c)
 	verifyCommitRules(c)
 	voteAdmissionRules(c)
+	tallyRules(c)
+	validatorSetRoles(c)
 
 	// ---- block sync -----------------------------------------------------------------------------
 	if fn := c.Fn("blockchain", "pcState", "handle"); fn != nil {
